@@ -20,7 +20,7 @@ func TestVerif_C12_Cubbyhole(t *testing.T) {
 	r := kit.NewResult(t, "c12-cubbyhole", seed,
 		"in every generated world a zoo of tokens (root, namespace root tokens, siblings, parent/child chains, orphans, tokens with a caller-chosen id incl. one id extending another, tokens of every namespace, a batch token) writes distinct canaries under the same cubbyhole paths in every namespace it may act in; then every token reads, lists and probes (other token's storage segment as path, // and trailing-slash spellings) every such cell in every namespace spelling: whatever comes back must have been written by the reading token in that namespace, and at the physical layer the per-token segment below the cubbyhole mount prefix touched by a request must not be a segment another token's writes created; a read is non-trivial when reader and writer differ")
 	defer r.Write(t)
-	topos := kit.N(3, 64)
+	topos := kit.N(3, 128)
 	for ti := 0; ti < topos; ti++ {
 		if ti%shards != shard {
 			continue
@@ -30,7 +30,7 @@ func TestVerif_C12_Cubbyhole(t *testing.T) {
 			continue
 		}
 		rng := kit.NewRand(seed, 0x12200+uint64(ti))
-		c12CubbyCase(t, r, rng, caseID, ti%2 == 0)
+		c12CubbyCase(t, r, rng, caseID, (ti+ti/8)%2 == 0)
 		if r.NViolations() > 30 {
 			break
 		}
